@@ -58,9 +58,16 @@ def _spawn(modname, jobs, extra_env, numba_tag, workdir, tag):
     with open(jf, 'w') as f:
         json.dump(jobs, f)
     p = subprocess.Popen([env.PY, '-W', 'ignore', '-X', 'faulthandler', '-m', 'vf.worker', modname, jf, of],
-                         env=env.worker_env(extra_env, numba_tag), cwd=env.VERIF,
+                         env=env.worker_env(extra_env, numba_tag), cwd=_worker_cwd(),
                          stdout=subprocess.DEVNULL, stderr=open(ef, 'w'))
     return {'p': p, 'of': of, 'ef': ef, 'jobs': jobs, 'tag': tag, 't0': time.time()}
+
+
+def _worker_cwd():
+    """jesse creates storage/... directories relative to the working directory: workers live in a scratch one"""
+    d = os.path.join(env.CACHE, 'cwd')
+    os.makedirs(d, exist_ok=True)
+    return d
 
 
 def run_jobs(mod, jobs, nproc=None, timeout=None):
